@@ -228,8 +228,10 @@ def tools_in_sections(p0: bool, p1: bool, f0: bool, t0: bool, t1: bool, t2: bool
     if p >= len(PROLOGUES) or t >= len(TARGETS):
         return True
     from crosshair.tracers import NoTracing
-    with NoTracing():
-        return _tools_concrete(PROLOGUES[p], FILLERS[1 if f0 else 0], TARGETS[t], second, independent, crlf)
+    filler = FILLERS[1 if f0 else 0]
+    second, independent, crlf = (True if second else False), (True if independent else False), (True if crlf else False)
+    with NoTracing():       # every symbolic bit has been decided above
+        return _tools_concrete(PROLOGUES[p], filler, TARGETS[t], second, independent, crlf)
 
 
 def _tools_concrete(prologue, filler, target, second, independent, crlf=False):
